@@ -19,6 +19,8 @@ structure SrcInst where
   log : List String := []
   /-- what the implementation answered to the most recent `pull` (`none` = not pulled yet) -/
   lastImpl : Option String := none
+  /-- a scripted source that is NOT fused (answers may be end markers followed by further items) instead of `e` -/
+  burst : Option (List (Option V)) := none
 
 structure SkInst where
   k : SinkModels.Sk V
